@@ -211,6 +211,16 @@ def run(ctx, R, tier):
     if n_mem < 5:
         raise AnalysisError("MemoryStorage: fewer methods than expected (%d)" % n_mem)
 
+    # the name server keeps no state of its own besides the storage and the lock: a field written by an operation (a cache of the last parsed uri, a counter) is shared by
+    # all client threads and would need the lock as well - none exists today, so any such store is reported
+    for name, m in sorted(methods.items()):
+        sts = [st for st, t, k in stores_in(m.node) if isinstance(t, ast.Attribute) and isinstance(t.value, ast.Name) and t.value.id == m.self_name]
+        unl = [st for st in sts if not any(dotted(it.context_expr) == LOCK for w in enclosing_withs(st) for it in w.items)]
+        if sts:
+            R.check(not unl, "C15-R2", "NameServer.%s|no-unlocked-state" % name, "fields of the name server object are written only under the lock", m.loc(unl[0]) if unl else m.loc(),
+                    "`%s` in NameServer.%s writes shared state of the name server outside `with self.lock`: two concurrent operations interleave on it (a lookup can return the uri "
+                    "another thread's lookup just parsed)" % (unparse(unl[0], 60) if unl else "", name))
+
     # ---------------------------------------------------------------- R2
     init = ns.methods.get("__init__")
     if init is None:
